@@ -141,7 +141,7 @@ class SetArgs:
                  dict_keys_fields, disable_unicode_conversion, preamble):
         return {"preamble_str_or_none": is_none(preamble) or ty_is(preamble, str),
                 "regex_list_or_none": is_none(dict_keys_regex) or (ty_is(dict_keys_regex, list) and forall(as_list(dict_keys_regex), lambda r: ty_is(r, str))),
-                "no_kwargs": is_none(code_generator_kwargs_raw)}
+                }
 
     def raises(self, merge_policy, structure, framework, code_generator, code_generator_kwargs_raw, dict_keys_regex,
                dict_keys_fields, disable_unicode_conversion, preamble):
@@ -158,6 +158,124 @@ class SetArgs:
             "no_regex_no_patterns@C13": implies(not given, seq_len(out) == 0),
             "preamble_trimmed@C19": implies(not is_none(preamble) and len(sval(preamble)) > 0 and not is_blank(sval(preamble)), ty_is(self.preamble, str) and sval(self.preamble) == ext("str.strip", sval(preamble))),
             "blank_preamble_dropped@C19": implies(is_none(preamble) or len(sval(preamble)) == 0 or is_blank(sval(preamble)), is_none(self.preamble)),
-            "generator_options@C16": dict_len(kw) == 3 and kw["post_init_converters"] is attr_of(self, "strings_converters")
+            "generator_options@C16": implies(not truthy(code_generator_kwargs_raw), dict_len(kw) == 3) and kw["post_init_converters"] is attr_of(self, "strings_converters")
             and kw["convert_unicode"] is box_bool(not disable_unicode_conversion) and kw["max_literals"] is attr_of(self, "max_literals"),
         }
+
+
+@contract("json_to_models/cli.py::process_path", props=["C16"], verify=False)
+class ProcessPath:
+    sorts = {"path": "str", "result": "list"}
+
+    def raises(self, path):
+        return {"*": True}
+
+
+@contract(CLI + ".setup_models_data", props=["C16", "C17"], abstract=True)
+class SetupModelsData:
+    """C17: every sample file is loaded, looked up and validated here, i.e. before any generation; nothing is printed or written."""
+    sorts = {"models": "any", "models_lists": "any"}
+    modifies = ["*"]
+
+    def raises(self, models, models_lists, parser):
+        return {"*": True}
+
+    def ensures(self, models, models_lists, parser):
+        return {"no_output@C17": no_effects()}
+
+    def ensures_exc(self, models, models_lists, parser):
+        return {"no_output_on_failure@C17": no_effects()}
+
+
+@contract(CLI + ".parse_args", props=["C17", "C16"], abstract=True)
+class ParseArgs:
+    """C17: argument handling never prints model code or touches the output file, whether it succeeds or fails."""
+    modifies = ["*"]
+
+    def raises(self, args):
+        return {"*": True}
+
+    def ensures(self, args):
+        return {"no_output@C17": no_effects()}
+
+    def ensures_exc(self, args):
+        return {"no_output_on_failure@C17": no_effects()}
+
+
+@assumed("attr:structure_fn", props=[])
+class StructureFnCall:
+    """self.structure_fn(models_map): one of compose_models / compose_models_flat (may raise)"""
+    sorts = {"result": "tuple"}
+
+    def raises(self, a0, a1):
+        return {"*": True}
+
+
+@contract(CLI + ".run", props=["C16", "C17"], abstract=True)
+class Run:
+    """C17: the output file is opened only after the complete text exists, so every failure leaves it untouched and prints nothing;
+    C16: what is written with -o is exactly the text that would have been returned for printing (header + generated code)."""
+    sorts = {"result": "str", "output": "str", "output_file": "any", "enable_datetime": "bool", "models_data": "dict"}
+    modifies = ["*"]
+
+    def raises(self):
+        return {"*": True}
+
+    def ensures(self, result):
+        out = local("output")
+        to_file = truthy(old(self.output_file))
+        return {
+            "stdout_text_is_output@C16": implies(not to_file, result == out and no_effects()),
+            "file_gets_same_text@C16,C17": implies(to_file, effects() == 2 and written_text() == out and opened_path() is old(self.output_file)),
+        }
+
+    def ensures_exc(self):
+        return {"nothing_written_on_failure@C17": no_effects()}
+
+
+@loop(CLI + ".run", 1)
+def run_loop(_it, _seq):
+    return {"nothing_written_yet": no_effects()}
+
+
+@contract("json_to_models/cli.py::main", props=["C17"], abstract=True)
+class Main:
+    """C17: model code is printed only after run() returned normally; a failure anywhere propagates (non-zero exit) with no output."""
+    modifies = ["*", "*effects"]
+
+    def raises(self):
+        return {"*": True}
+
+    def ensures_exc(self):
+        return {"nothing_printed_on_failure@C17": no_effects()}
+
+
+@assumed("method:parse_args", props=[])
+class ArgparseParse:
+    """argparse.ArgumentParser.parse_args: the namespace attributes have the types the parser declares
+    (str options are str or None, nargs options are lists of str or None, flags are bool); may exit/raise."""
+    sorts = {"result": "any"}
+
+    def raises(self, a0, a1):
+        return {"*": True}
+
+    def ensures(self, a0, a1, result):
+        return {
+            "preamble": is_none(attr_of(result, "preamble")) or ty_is(attr_of(result, "preamble"), str),
+            "dkr": is_none(attr_of(result, "dict_keys_regex")) or (ty_is(attr_of(result, "dict_keys_regex"), list) and forall(as_list(attr_of(result, "dict_keys_regex")), lambda r: ty_is(r, str))),
+            "merge": ty_is(attr_of(result, "merge"), list) and forall(as_list(attr_of(result, "merge")), lambda r: ty_is(r, str)),
+        }
+
+
+@assumed("str.split", props=[])
+class StrSplit:
+    """s.split(sep[, maxsplit]): a non-empty list of str"""
+    sorts = {"a0": "str", "a1": "str", "result": "list"}
+
+    def ensures(self, a0, a1, result):
+        return {"nonempty": seq_len(result) >= 1, "strs": forall(result, lambda p: ty_is(p, str)), "is_list": ty_is(result, list)}
+
+
+@loop(CLI + ".parse_args", 1)
+def parse_args_loop(_it, _seq):
+    return {"nothing_written_yet": no_effects()}
